@@ -7,6 +7,7 @@ For a case with "mut" the text written by the real code is parsed, one mutation 
 duplicated), and the result carries  mxml (infoset of the mutated element)  and  mlx (libxml2's verdict on it)."""
 import io
 import json
+import os
 import random
 import shutil
 import sys
@@ -163,8 +164,186 @@ def add_history():
     return out
 
 
+class FailingFile(object):
+    """a file object whose k-th write() raises OSError (disk full)"""
+    def __init__(self, k):
+        self.k, self.n, self.parts = k, 0, []
+
+    def write(self, s):
+        self.n += 1
+        if self.n >= self.k:
+            raise OSError(28, "No space left on device (injected)")
+        self.parts.append(s)
+
+    def close(self):
+        pass
+
+
+def find_single_child(o, depth=0):
+    """(holder, member name) of some component-valued, non-list member below o"""
+    import neuroml.nml.generatedssupersuper as gss
+    for c in type(o).__mro__:
+        for m in vars(c).get("member_data_items_", []):
+            v = getattr(o, m.get_name(), None)
+            if isinstance(v, gss.GeneratedsSuperSuper) and depth >= 1:
+                return o, m.get_name()
+            for k in (v if isinstance(v, list) else [v]):
+                if isinstance(k, gss.GeneratedsSuperSuper):
+                    r = find_single_child(k, depth + 1)
+                    if r:
+                        return r
+    return None
+
+
+def first_child(o):
+    import neuroml.nml.generatedssupersuper as gss
+    for c in type(o).__mro__:
+        for m in vars(c).get("member_data_items_", []):
+            v = getattr(o, m.get_name(), None)
+            for k in (v if isinstance(v, list) else [v]):
+                if isinstance(k, gss.GeneratedsSuperSuper):
+                    return k
+    return None
+
+
+def write_text(doc, d, name):
+    from neuroml.writers import NeuroMLWriter
+    fn = os.path.join(d, name)
+    NeuroMLWriter.write(doc, fn)
+    return open(fn).read()
+
+
+def export_text(comp, tag):
+    f = io.StringIO()
+    comp.export(f, 0, name_=tag, namespacedef_=base.writer_namespacedef())
+    return f.getvalue()
+
+
+def fresh_text(P):
+    """what a fresh process writes for one document / exports for one component"""
+    tmp = tempfile.mkdtemp(prefix="verif_c02_fresh_")
+    try:
+        o = base.construct(P["tree"])
+        return write_text(o, tmp, "fresh.nml") if P["doc"] else export_text(o, P["tag"])
+    finally:
+        shutil.rmtree(tmp, ignore_errors=True)
+
+
+def write_history(P):
+    """writes of conforming documents / exports of conforming components in ONE process, with failing writes in
+    between; every successful output is compared (by the caller) with what a fresh process produces"""
+    import subprocess
+    from concurrent.futures import ThreadPoolExecutor
+    from neuroml.writers import NeuroMLWriter
+    docs, comps = P["docs"], P["components"]
+    tmp = tempfile.mkdtemp(prefix="verif_c02_wh_")
+    out = {"ops": []}
+
+    def fresh(item):
+        fn = os.path.join(tmp, "fresh_%d.json" % item[0])
+        json.dump(item[1], open(fn, "w"))
+        p = subprocess.run([sys.executable, os.path.abspath(__file__), "--fresh", fn], capture_output=True, text=True, timeout=300)
+        lines = [l for l in p.stdout.splitlines() if l.startswith("@@")]
+        return json.loads(lines[-1][2:]) if p.returncode == 0 and lines else {"err": p.stderr[-300:]}
+    items = [(i, {"tree": t, "doc": True}) for i, t in enumerate(docs)] + \
+            [(len(docs) + i, {"tree": c["tree"], "tag": c["tag"], "doc": False}) for i, c in enumerate(comps)]
+    try:
+        with ThreadPoolExecutor(max_workers=8) as ex:
+            fr = list(ex.map(fresh, items))
+        out["fresh_docs"] = fr[:len(docs)]
+        out["fresh_comps"] = fr[len(docs):]
+        n = [0]
+
+        def op(kind, idx, fn):
+            n[0] += 1
+            rec = {"op": kind, "index": idx}
+            try:
+                rec["text"] = fn()
+                rec["raised"] = None
+            except Exception as e:  # noqa
+                rec["raised"] = type(e).__name__
+            out["ops"].append(rec)
+
+        def ok_doc(i):
+            op("write", i, lambda: write_text(base.construct(docs[i]), tmp, "w%d.nml" % n[0]))
+
+        def ok_comp(i):
+            op("export", i, lambda: export_text(base.construct(comps[i]["tree"]), comps[i]["tag"]))
+
+        def fail_nonchild(i):
+            def f():
+                o = base.construct(docs[i])
+                r = find_single_child(o)
+                if r:
+                    setattr(r[0], r[1], "m0")            # a string where a component is expected
+                else:
+                    k = first_child(o)
+                    k.export = None                       # not callable
+                return write_text(o, tmp, "f%d.nml" % n[0])
+            op("failing-write:non-component-child", i, f)
+
+        def fail_childraise(i):
+            def f():
+                o = base.construct(docs[i])
+                k = first_child(o)
+                kk = first_child(k) or k
+
+                def boom(*a, **kw):
+                    raise RuntimeError("injected failure in a child export")
+                kk.export = boom
+                return write_text(o, tmp, "f%d.nml" % n[0])
+            op("failing-write:child-export-raises", i, f)
+
+        def fail_io(i, k):
+            def f():
+                NeuroMLWriter.write(base.construct(docs[i]), FailingFile(k), close=False)
+                return ""
+            op("failing-write:io-error-at-write-%d" % k, i, f)
+        nd = len(docs)
+        ok_doc(0)
+        ok_comp(0)
+        fail_nonchild(1 % nd)
+        ok_doc(0)
+        ok_doc(2 % nd)
+        ok_comp(0)
+        fail_childraise(2 % nd)
+        ok_doc(1 % nd)
+        ok_comp(len(comps) - 1)
+        fail_io(1 % nd, 1)
+        ok_doc(1 % nd)
+        fail_io(2 % nd, 7)
+        ok_doc(0)
+        ok_comp(0)
+        for j in range(3, nd):
+            fail_nonchild(j)
+            ok_doc(j)
+            ok_doc(0)
+        for r in out["ops"]:
+            if r.get("text"):
+                r["lx"], _ = base.lx_validate_text(r["text"])
+    except Exception as e:  # noqa
+        out["err"] = type(e).__name__ + ": " + str(e)[:300]
+    finally:
+        shutil.rmtree(tmp, ignore_errors=True)
+    print(json.dumps(out))
+
+
 def main():
+    if len(sys.argv) > 2 and sys.argv[1] == "--fresh":
+        real_stdout = sys.stdout
+        sys.stdout = io.StringIO()
+        try:
+            try:
+                r = {"text": fresh_text(json.load(open(sys.argv[2])))}
+            except Exception as e:  # noqa
+                r = {"err": type(e).__name__ + ": " + str(e)[:300]}
+        finally:
+            sys.stdout = real_stdout
+        print("@@" + json.dumps(r))
+        return
     P = json.load(sys.stdin)
+    if P.get("mode") == "writehistory":
+        return write_history(P)
     if P.get("mode") == "history":
         base.install_recorder()
         real_stdout = sys.stdout
